@@ -62,6 +62,26 @@ CHECKS.update({
    text="TLC checks the close configuration of Store.tla with deadlock checking on (a call that can never return is a deadlock): writers parked on a full queue, waiters and Close at every point; the schedules are replayed on the real store with the write queue shrunk to 1-2 slots, "
         "free-running histories race Close against every kind of call with a watchdog per call, post-close behaviour is validated by TLC (reads miss, writes have no effect, loading Get fails with the closed error, Wait returns) and a goroutine census after Close must equal the one before the store was created.",
    note="A hang in a replayed schedule counts only if it reproduces; plain and loading caches (hybrid: see C14/C15)."),
+ "C11": dict(level="model_checking", ref="4 C11",
+   technique="TLA+ spec Persist.tla (block-level model of SaveCache/LoadCache: metadata, window, protected, probation, end blocks; Load follows Recover block by block) model-checked by TLC over all small caches x targets x elapsed times; real save/load round trips validated by TLC (PersistTrace evaluates Load of the spec on the decoded block list of each real stream and compares)",
+   text="TLC enumerates every small saved cache (regions, mixed costs, deadlines), target size and elapsed time and checks the round-trip predicates of Persist.tla; real caches (mixed costs, TTLs on several wheel levels, promotions, adaptive window resizing) are saved, the stream is decoded into its blocks and loaded into caches of the same, smaller and larger size after shifted clock origins; "
+        "TLC compares every loaded region with Load of the specification and checks: same size restores every unexpired entry in region and order with cost, deadline, clock origin and at least the saved frequency; smaller size restores a most-recently-used prefix per region within the new capacity; the loaded cache is consistent.",
+   note="int keys and values, one block per region in real streams (multi-block regions only in the model); elapsed time by shifting the saved clock origin."),
+ "C12": dict(level="model_checking", ref="4 C12",
+   technique="TLA+ spec Persist.tla with block-level faults (truncate, drop, duplicate, swap, retype header, corrupt checksum, wrong version) model-checked by TLC; the same faults applied to real streams and validated by TLC against Load of the spec; byte-level damage enumerated in Go and judged by the spec's FaultSafe predicate",
+   text="TLC checks over all small caches and all single block-level faults that a truncated stream is refused, that a damaged stream gives an error or loads only saved entries under the saved clock origin, and that another version is refused before anything is loaded; every such fault is applied to the decoded block list of real streams, re-encoded and loaded, and TLC compares the outcome with the specification; "
+        "seeded truncation offsets and single-bit/single-byte changes of the raw bytes are loaded as well and judged by the same predicate (no panic, no invented key/value/longer life).",
+   note="Byte-level part is fault enumeration with a model oracle (seeded sample in quick, larger in thorough), not model checking; duplicated entries after a duplicated block are not counted as wrong data."),
+ "C14": dict(level="model_checking", ref="4 C14",
+   technique="TLA+ spec Hybrid.tla (memory tier, secondary tier, from-secondary flag, hand-off queue, worker copy and removal by identity) model-checked by TLC; histories of the real hybrid store with a scripted secondary store validated by TLC (HybridTrace freshness observer)",
+   text="TLC checks Fresh (a Get never returns a value other than the last Set's, never a deleted or expired one) and Demoted over all interleavings of Set/Get/Delete/evict/expire/worker steps for 2 keys; seeded histories run on the real hybrid store (simple and loading, two workers, virtual clock, secondary calls logged by the scripted store) "
+        "and TLC validates every Get against the last completed Set/Delete of its key and its deadline, distinguishing values served from memory and from the secondary tier.",
+   note="Sequential client with asynchronous workers; the exhaustive run uses the design with the three known hybrid findings repaired (FixB/FixC/FixD), HybridMC_pinned.cfg (the code as it is) violates Fresh/Demoted as recorded in known_findings.json."),
+ "C15": dict(level="model_checking", ref="4 C15",
+   technique="TLA+ spec Hybrid.tla model-checked by TLC (Demoted); histories of the real hybrid store with a scripted, optionally failing secondary store validated by TLC (HybridTrace demotion / memory-bound observer)",
+   text="TLC checks that once the workers are idle every live key is in one of the tiers with its value; on the real store every capacity eviction is followed up: hand-off, worker copy (secondary Set logged) before the slot is removed, direct removal only when the secondary tier holds the identical value; "
+        "after settling (verif completion counter instead of sleeping) every live key is found again without reloading, for Set- and loader-originated entries with and without TTL, and with a failing secondary store the error handler is called and resident entries stay within MaxSize.",
+   note="Admission probability 1 and a hand-off queue that never fills (the driver waits for the workers)."),
  "C13": dict(level="model_checking", ref="4 C13",
    technique="TLA+ spec SingleFlight.tla (Group.Do with pooled call records, loader outcomes ok/err/panic/Goexit) model-checked by TLC; TLC schedules replayed on the real Group through verif hook points; cache-level loading histories with failing/panicking loaders validated by TLC (SingleFlightTrace, StoreTrace)",
    text="TLC checks one-loader-per-key, shared results by invocation, no finished call left in the table, no record re-initialised while referenced and return of every call for 2-3 callers; the schedules are executed on the real Group (callers parked at hook points, scripted loader outcomes); "
